@@ -33,5 +33,5 @@ Step == /\ l <= Len(T.h)
         /\ l' = l + 1
         /\ UNCHANGED <<tid, objs, hist, done>>
 TSpec == TInit /\ [][Step]_tvars
-Report == l = Len(T.h) + 1 => PrintT(<<"V", tid, bad>>)
+Report == l = Len(T.h) + 1 => PrintT(ToJson(<<"V", tid, bad>>))
 =============================================================================
